@@ -155,6 +155,9 @@ impl AbstractTree for Tree {
     }
 
     fn get_internal_entry(&self, key: &[u8], seqno: SeqNo) -> crate::Result<Option<InternalValue>> {
+        #[cfg(feature = "verif_hooks")]
+        crate::verif_api::point("read");
+
         #[expect(clippy::expect_used, reason = "lock is expected to not be poisoned")]
         let super_version = self
             .version_history
@@ -456,6 +459,9 @@ impl AbstractTree for Tree {
             blob_files.map(<[BlobFile]>::len).unwrap_or_default(),
         );
 
+        #[cfg(feature = "verif_hooks")]
+        crate::verif_api::point("flush_commit");
+
         #[expect(clippy::expect_used, reason = "lock is expected to not be poisoned")]
         let mut _compaction_state = self.compaction_state.lock().expect("lock is poisoned");
         #[expect(clippy::expect_used, reason = "lock is expected to not be poisoned")]
@@ -560,6 +566,9 @@ impl AbstractTree for Tree {
 
     #[expect(clippy::significant_drop_tightening)]
     fn rotate_memtable(&self) -> Option<Arc<Memtable>> {
+        #[cfg(feature = "verif_hooks")]
+        crate::verif_api::point("rotate");
+
         #[expect(clippy::expect_used, reason = "lock is expected to not be poisoned")]
         let mut version_history_lock = self.version_history.write().expect("lock is poisoned");
         let super_version = version_history_lock.latest_version();
@@ -924,6 +933,9 @@ impl Tree {
     #[doc(hidden)]
     #[must_use]
     pub fn append_entry(&self, value: InternalValue) -> (u64, u64) {
+        #[cfg(feature = "verif_hooks")]
+        crate::verif_api::point("write");
+
         #[expect(clippy::expect_used, reason = "lock is expected to not be poisoned")]
         self.version_history
             .read()
